@@ -201,9 +201,9 @@ type World struct {
 	salt atomic.Int64
 	step atomic.Int64
 
-	Park  bool // lock acquisitions may be descheduled on the virtual clock (LockYield)
-	parks atomic.Int64
-	rootG atomic.Int64
+	Park      bool // lock acquisitions may be descheduled on the virtual clock (LockYield)
+	parks     atomic.Int64
+	rootG     atomic.Int64
 	parkedNow atomic.Int64
 
 	logMu    sync.Mutex
@@ -459,6 +459,10 @@ func ResetRand() { randCtr.Store(0) }
 
 // MarkRoot records the calling goroutine as the run's scheduler (root of the bubble).
 func (w *World) MarkRoot() { w.rootG.Store(goid()) }
+
+// GoID is the current goroutine's number: harnesses whose actors are goroutines of their own use it to attribute what
+// a goroutine does (a dial) to the actor it belongs to. Never printed, never part of a digest.
+func GoID() int64 { return goid() }
 
 // goid parses the current goroutine's number out of its stack header ("goroutine 123 [running]:"). Only called on
 // the rare path that is about to park.
